@@ -120,6 +120,7 @@ func (p *Program) VerifyFunc(fc *FuncContract) (res *FuncResult) {
 	for _, r := range fc.Requires {
 		x.axiom(x.evalBool(ce, r))
 	}
+	x.applyUses(ce, fc)
 	// vacuity cover: the preconditions (and type facts) must be satisfiable
 	x.covers = append(x.covers, &Obligation{Name: "cover:requires", Kind: "cover", Guard: x.b.True, Goal: x.b.False, NHyps: len(x.hyps), Text: "preconditions are satisfiable"})
 	pending := map[*ssa.BasicBlock][]*Edge{f.Blocks[0]: {{from: nil, to: f.Blocks[0], cond: x.b.True, st: st, env: env}}}
@@ -211,6 +212,7 @@ func (p *Program) VerifyLemma(fc *FuncContract) (res *FuncResult) {
 	for _, r := range fc.Requires {
 		x.axiom(x.evalBool(ce, r))
 	}
+	x.applyUses(ce, fc)
 	x.covers = append(x.covers, &Obligation{Name: "cover:requires", Kind: "cover", Guard: x.b.True, Goal: x.b.False, NHyps: len(x.hyps), Text: "lemma hypotheses are satisfiable"})
 	for i, e := range fc.Ensures {
 		lab := fmt.Sprintf("#%d", i)
@@ -224,6 +226,57 @@ func (p *Program) VerifyLemma(fc *FuncContract) (res *FuncResult) {
 
 // SMTText renders one obligation as a complete SMT-LIB2 script.
 func (r *FuncResult) SMTText(o *Obligation, expectSat bool) string {
+	return r.SMTTextWith(o, nil, !expectSat)
+}
+
+var smtBuiltin = map[string]bool{"and": true, "or": true, "not": true, "=>": true, "ite": true, "=": true, "+": true, "-": true, "*": true, "/": true,
+	"<": true, "<=": true, ">": true, ">=": true, "select": true, "store": true, "div": true, "mod": true, "to_real": true, "to_int": true,
+	"lit": true, "q": true, "mk_slice": true, "mk_iface": true, "s_ref": true, "s_off": true, "s_len": true, "s_cap": true, "i_tag": true, "i_ref": true,
+	"distinct": true, "abs": true, "bv2nat": true}
+
+// definedAtoms returns the "defined" atoms of t: fresh constants that are not
+// inputs, and applications of uninterpreted functions. Hypotheses constrain
+// such atoms; a hypothesis none of whose defined atoms is relevant to the goal
+// cannot contribute to its proof and is dropped (sound: fewer hypotheses).
+func (x *Exec) definedAtoms(t *smt.Term, memo map[int][]int) []int {
+	if v, ok := memo[t.ID]; ok {
+		return v
+	}
+	var out []int
+	seen := map[int]bool{}
+	add := func(id int) {
+		if !seen[id] {
+			seen[id] = true
+			out = append(out, id)
+		}
+	}
+	if len(t.Args) == 0 && t.Op != "lit" && t.Lit != "bound" {
+		if strings.Contains(t.Op, "!") && !strings.HasPrefix(t.Op, "p_") && !strings.HasPrefix(t.Op, "l_") && !strings.HasPrefix(t.Op, "fv_") {
+			add(t.ID)
+		}
+	} else if len(t.Args) > 0 && !smtBuiltin[t.Op] && !x.isStructural(t.Op) {
+		add(t.ID)
+	}
+	for _, a := range t.Args {
+		for _, id := range x.definedAtoms(a, memo) {
+			add(id)
+		}
+	}
+	memo[t.ID] = out
+	return out
+}
+
+// isStructural: datatype constructors / selectors / testers and fp / indexed operators.
+func (x *Exec) isStructural(op string) bool {
+	if strings.HasPrefix(op, "mk_") || strings.HasPrefix(op, "S_") || strings.HasPrefix(op, "A") && strings.Contains(op, "_e") ||
+		strings.HasPrefix(op, "fp.") || strings.HasPrefix(op, "(") || strings.HasPrefix(op, "some_") || strings.HasPrefix(op, "none_") || strings.HasPrefix(op, "val_") {
+		return true
+	}
+	return false
+}
+
+// SMTTextWith renders obligation o with extra assumptions (case splits).
+func (r *FuncResult) SMTTextWith(o *Obligation, extra []*smt.Term, filter bool) string {
 	x := r.X
 	var sb strings.Builder
 	fmt.Fprintf(&sb, "; obligation %s :: %s\n; %s\n", r.Name, o.Name, strings.ReplaceAll(o.Text, "\n", " "))
@@ -235,19 +288,133 @@ func (r *FuncResult) SMTText(o *Obligation, expectSat bool) string {
 		sb.WriteString(d.Text)
 		sb.WriteByte('\n')
 	}
-	var roots []*smt.Term
+	goal := x.b.And(o.Guard, x.b.Not(o.Goal))
+	var hyps []*smt.Term
 	seenH := map[int]bool{}
 	for _, h := range x.hyps[:o.NHyps] {
 		if !seenH[h.ID] {
 			seenH[h.ID] = true
-			roots = append(roots, h)
+			hyps = append(hyps, h)
 		}
 	}
-	roots = append(roots, x.b.And(o.Guard, x.b.Not(o.Goal)))
+	if filter && x.rootC != nil && x.rootC.Opts["nofilter"] == "" {
+		memo := map[int][]int{}
+		rel := map[int]bool{}
+		for _, id := range x.definedAtoms(goal, memo) {
+			rel[id] = true
+		}
+		for _, e := range extra {
+			for _, id := range x.definedAtoms(e, memo) {
+				rel[id] = true
+			}
+		}
+		included := make([]bool, len(hyps))
+		for changed := true; changed; {
+			changed = false
+			for i, h := range hyps {
+				if included[i] {
+					continue
+				}
+				core := h
+				for core.Op == "=>" && len(core.Args) == 2 {
+					core = core.Args[1]
+				}
+				atoms := x.definedAtoms(core, memo)
+				take := len(atoms) == 0 || containsQuant(h)
+				if !take {
+					for _, id := range atoms {
+						if rel[id] {
+							take = true
+							break
+						}
+					}
+				}
+				if take {
+					included[i] = true
+					for _, id := range atoms {
+						if !rel[id] {
+							rel[id] = true
+							changed = true
+						}
+					}
+				}
+			}
+		}
+		var kept []*smt.Term
+		for i, h := range hyps {
+			if included[i] {
+				kept = append(kept, h)
+			}
+		}
+		hyps = kept
+	}
+	roots := append(hyps, extra...)
+	roots = append(roots, goal)
 	pr := x.b.NewPrinter()
 	sb.WriteString(pr.Script(roots))
 	sb.WriteString("(check-sat)\n")
 	return sb.String()
+}
+
+func containsQuant(t *smt.Term) bool {
+	if t.Op == "q" {
+		return true
+	}
+	for _, a := range t.Args {
+		if containsQuant(a) {
+			return true
+		}
+	}
+	return false
+}
+
+// CaseSplits proposes case splits for a hard obligation: the conditions of the
+// ite terms reachable from the goal (closed, at most k of them), as all sign
+// combinations. The obligation holds iff it holds in every case.
+func (r *FuncResult) CaseSplits(o *Obligation, k int) [][]*smt.Term {
+	x := r.X
+	var conds []*smt.Term
+	seen := map[int]bool{}
+	seenC := map[int]bool{}
+	var walk func(t *smt.Term)
+	walk = func(t *smt.Term) {
+		if seen[t.ID] || len(conds) >= k {
+			return
+		}
+		seen[t.ID] = true
+		if t.Op == "ite" && !t.Args[0].Bound && t.Sort != "Bool" {
+			c := t.Args[0]
+			if c.Op == "not" {
+				c = c.Args[0]
+			}
+			if !seenC[c.ID] {
+				seenC[c.ID] = true
+				conds = append(conds, c)
+			}
+		}
+		for _, a := range t.Args {
+			walk(a)
+		}
+	}
+	walk(o.Goal)
+	walk(o.Guard)
+	if len(conds) == 0 {
+		return nil
+	}
+	var out [][]*smt.Term
+	n := len(conds)
+	for mask := 0; mask < 1<<uint(n); mask++ {
+		var cs []*smt.Term
+		for i, c := range conds {
+			if mask&(1<<uint(i)) != 0 {
+				cs = append(cs, c)
+			} else {
+				cs = append(cs, x.b.Not(c))
+			}
+		}
+		out = append(out, cs)
+	}
+	return out
 }
 
 // Trivial reports whether the obligation is discharged by the simplifier alone.
@@ -270,3 +437,43 @@ func (x *Exec) markOld(t *smt.Term) {
 
 // Builder exposes the SMT builder of the run (for replay queries).
 func (x *Exec) Builder() *smt.Builder { return x.b }
+
+// applyUses instantiates proved lemmas: `use name(args)` obliges the lemma's
+// hypotheses for the arguments and then assumes its conclusions.
+func (x *Exec) applyUses(ce *CEnv, fc *FuncContract) {
+	for ui, u := range fc.Uses {
+		call, ok := u.E.(*ECall)
+		if !ok {
+			panic(evalErr{fmt.Sprintf("%s:%d: use needs lemma(args)", u.File, u.Line)})
+		}
+		id, ok := call.Fun.(*EIdent)
+		if !ok {
+			panic(evalErr{fmt.Sprintf("%s:%d: use needs lemma(args)", u.File, u.Line)})
+		}
+		lem := x.prog.Contracts.Lemmas[id.Name]
+		if lem == nil {
+			panic(evalErr{fmt.Sprintf("%s:%d: unknown lemma %s", u.File, u.Line, id.Name)})
+		}
+		if len(call.Args) != len(lem.Params) {
+			panic(evalErr{fmt.Sprintf("%s:%d: lemma %s expects %d arguments", u.File, u.Line, id.Name, len(lem.Params))})
+		}
+		lpkg := x.prog.pkgOfFile(lem.File)
+		vars := map[string]*Val{}
+		for i, prm := range lem.Params {
+			v := x.eval(ce, call.Args[i])
+			if t := x.prog.resolveType(lpkg, prm.Type); t != nil {
+				v = x.coerce(v, t)
+			}
+			vars[prm.Name] = v
+		}
+		le := &CEnv{x: x, st: ce.st, old: ce.st, vars: vars, guard: x.b.True, fc: lem, pkg: lpkg}
+		x.evalLets(le, lem)
+		for i, r := range lem.Requires {
+			x.oblige("pre@use", fmt.Sprintf("pre@use(%s)#%d.%d", id.Name, ui, i), x.b.True, x.evalBool(le, r), 0, r.Text, false)
+		}
+		for _, e := range lem.Ensures {
+			x.axiom(x.evalBool(le, e))
+		}
+		x.note("uses lemma " + id.Name + " (proved separately as its own obligation)")
+	}
+}
